@@ -109,6 +109,18 @@ func (w *syncWalker) call(c *ast.CallExpr, ctx string, guards []string, deferred
 	if len(c.Args) > 0 {
 		arg0 = strings.Join(strings.Fields(w.r.Text(c.Args[0])), " ")
 	}
+	// a call of the transaction constructor, whatever it is called and wherever its `write` flag stands, is reported as
+	// fox.txnWith(<write>)
+	if ct := w.r.txnCtor(); ct != nil && ct.name != "Txn" {
+		isCtor := (ct.recv != "" && strings.HasSuffix(name, "."+ct.name)) || (ct.recv == "" && name == ct.name)
+		if isCtor {
+			name = "fox.txnWith"
+			arg0 = ""
+			if len(c.Args) > ct.writeIdx {
+				arg0 = strings.Join(strings.Fields(w.r.Text(c.Args[ct.writeIdx])), " ")
+			}
+		}
+	}
 	switch {
 	case strings.HasSuffix(name, ".mu.Lock"):
 		w.add("lock", ctx, guards, name)
@@ -319,8 +331,12 @@ def SyncItem.key (i : SyncItem) : SyncEv × SyncCtx × List Nat := (i.ev, i.ctx,
 
 `)
 	type fn struct{ lean, file, recv, name string }
+	ctor := r.txnCtor()
+	if ctor == nil {
+		return "", fmt.Errorf("Router.Txn not found")
+	}
 	fns := []fn{
-		{"sync_txnWith", "fox.go", "Router", "txnWith"},
+		{"sync_txnWith", "fox.go", ctor.recv, ctor.name},
 		{"sync_RouterTxn", "fox.go", "Router", "Txn"},
 		{"sync_getRoot", "fox.go", "Router", "getRoot"},
 		{"sync_Commit", "txn.go", "Txn", "Commit"},
@@ -338,7 +354,7 @@ def SyncItem.key (i : SyncItem) : SyncEv × SyncCtx × List Nat := (i.ev, i.ctx,
 		if fd == nil || fd.Body == nil {
 			return "", fmt.Errorf("function %s.%s not found in %s", f.recv, f.name, f.file)
 		}
-		fmt.Fprintf(&sb, "/-- %s.%s (%s:%d) -/\ndef %s : List SyncItem :=\n  %s\n\n", f.recv, f.name, f.file, r.Fset.Position(fd.Pos()).Line, f.lean, r.syncItems(fd))
+		fmt.Fprintf(&sb, "/-- %s.%s (%s) -/\ndef %s : List SyncItem :=\n  %s\n\n", f.recv, f.name, f.file, f.lean, r.syncItems(fd))
 	}
 	// every method of *Txn: its guard prologue and sync events
 	file := r.Files["txn.go"]
@@ -363,7 +379,11 @@ def SyncItem.key (i : SyncItem) : SyncEv × SyncCtx × List Nat := (i.ev, i.ctx,
 	var others []string
 	known := map[string]bool{}
 	for _, f := range fns {
-		known[f.recv+"."+f.name] = true
+		if f.recv == "" {
+			known[f.name] = true
+		} else {
+			known[f.recv+"."+f.name] = true
+		}
 	}
 	for rel, f := range r.Files {
 		if strings.Contains(rel, "/") {
